@@ -19,6 +19,8 @@ OA  == VObj("A", << <<VStr("a"), VInt(1)>>, <<VStr("b"), VInt(2)>> >>)
 L12 == VList(<<VInt(1), VInt(2)>>)
 L5  == VList(<<VInt(5)>>)
 P(text, segs) == SPath(text, segs)
+Px == P("x", <<"x">>)
+ArgSpec == SCoal(<<Px>>, DefaultArgs(<<SProbe("id"), SRead("k")>>))
 Pa == P("a", <<"a">>)   Pab == P("a.b", <<"a", "b">>)   Pax == P("a.x", <<"a", "x">>)   Pstar == P("*", <<"*">>)
 
 FullPool == <<
@@ -49,7 +51,19 @@ FullPool == <<
   Call(T1, <<>>, 11, Pa),
   \* 12: iteration of a type without an 'iterate' handler (nothing is memoized), caught by Coalesce;
   \* iterable once Aiter is registered
-  Call(OA, <<>>, 12, SCoal(<<SEach("list", SProbe("id"))>>, Default(VInt(0))))
+  Call(OA, <<>>, 12, SCoal(<<SEach("list", SProbe("id"))>>, Default(VInt(0)))),
+  \* 13, 14: ONE spec object (sid 13) holding a list ARGUMENT with a yield point inside it, on two
+  \* targets: argument evaluation (arg_val) in progress in one call while the other call starts it
+  Call(T1, << <<"k", VInt(7)>> >>, 13, ArgSpec),
+  Call(L5, << <<"k", VInt(8)>> >>, 13, ArgSpec),
+  \* 15: a list argument whose first element re-enters glom() with the sid-13 object, then a yield
+  Call(T1, <<>>, 15, SCoal(<<Px>>, DefaultArgs(<<SNest(Call(L5, << <<"k", VInt(8)>> >>, 13, ArgSpec)), SProbe("id")>>))),
+  \* 16-18: calls routed through ONE shared Glommer instance (own registry, own root scope per call):
+  \* 16 observes its root target after a yield, 17 fails after the yield (error trace), 18 re-enters
+  \* through the same Glommer, the inner failure is swallowed by a Coalesce, then it fails itself
+  GCall(T1, 16, STuple(<<SProbe("id"), SProbe("id"), Pab>>)),
+  GCall(L12, 17, STuple(<<SProbe("id"), Px>>)),
+  GCall(T1, 18, STuple(<<SCoal(<<SNest(GCall(L5, 181, Px))>>, Default(VInt(0))), SProbe("id"), Px>>))
 >>
 C20Pool == SubSeq(FullPool, PoolFrom, PoolFrom + PoolSize - 1)
 
